@@ -108,6 +108,7 @@ Opd(o, item, names, values) ==
 CmpO(op, a, b) ==
   IF a.st = "err" \/ b.st = "err" THEN {"E"}
   ELSE IF a.st = "soft" \/ b.st = "soft" THEN Lenient
+  ELSE IF op \notin {"=", "<>"} /\ ((a.st = "ok" /\ a.lit /\ a.v.t \notin ScalarOrd) \/ (b.st = "ok" /\ b.lit /\ b.v.t \notin ScalarOrd)) THEN Lenient
   ELSE IF a.st = "missing" \/ b.st = "missing" THEN B2O(op = "<>")
   ELSE IF op = "="  THEN B2O(SameValue(a.v, b.v))
   ELSE IF op = "<>" THEN B2O(~SameValue(a.v, b.v))
@@ -161,7 +162,7 @@ FnO(f, args, item, names, values) ==
          IF Len(args) # 2 \/ args[1].k # "path" THEN {"E"}
          ELSE IF A(1).st = "err" \/ A(2).st = "err" THEN {"E"}
          ELSE IF A(2).st = "soft" THEN Lenient
-         ELSE IF A(2).st = "ok" /\ A(2).lit /\ A(2).v.t \notin {"S","B"} THEN {"E"}
+         ELSE IF A(2).st = "ok" /\ A(2).lit /\ A(2).v.t \notin {"S","B"} THEN (IF A(1).st = "missing" THEN Lenient ELSE {"E"})
          ELSE IF A(1).st = "missing" \/ A(2).st = "missing" THEN {"F"}
          ELSE IF A(1).v.t = A(2).v.t /\ A(1).v.t \in {"S","B"} THEN B2O(IsPrefixB(Pay(A(2).v), Pay(A(1).v)))
          ELSE Lenient
